@@ -47,6 +47,21 @@ def scan():
 
 BUILDS = {'A': {'alloc', 'async', 'verif-hooks'}, 'B': {'alloc', 'async', 'verif-hooks', 'vmem', 'libc'}, 'C': {'async'}}
 
+_HOST = None
+def host_atom(atom):
+    """a non-feature cfg atom (`unix`, `debug_assertions`, `target_pointer_width="64"`, ..) in the builds of the checks: debug builds for this
+    host, as `rustc --print cfg` lists them; `doc` and `test` are never set"""
+    global _HOST
+    if _HOST is None:
+        try:
+            import subprocess
+            out = subprocess.run(['rustc', '--print', 'cfg'], capture_output=True, text=True, timeout=60).stdout
+            _HOST = set(re.sub(r'\s+', '', l) for l in out.split('\n') if l.strip())
+        except Exception: _HOST = set()
+        if not _HOST: _HOST = {'debug_assertions', 'unix'}
+    if atom in ('doc', 'test', 'miri', 'loom'): return False
+    return atom in _HOST
+
 def holds(cond, feats):
     """value of a cfg condition (whitespace-free text) under a feature set; None = cannot tell"""
     cond = cond.split(':', 1)[1] if cond.startswith(('cfg!:', 'cfg_attr:')) else cond
@@ -70,7 +85,7 @@ def holds(cond, feats):
         m = re.match(r'[A-Za-z_][A-Za-z_0-9]*(="[^"]*")?', cond[i:])
         if m:
             atom = m.group(0)
-            return ({'doc': False, 'test': False, 'debug_assertions': True, 'unix': True}.get(atom)), i + m.end()
+            return host_atom(atom), i + m.end()
         raise ValueError(cond[i:])
     try: return parse(0)[0]
     except Exception: return None
